@@ -200,6 +200,12 @@ var minWireSize = [256]int8{
 	tLIST:   5, // header only, may hold zero elements
 }
 
+// isBinaryType reports whether the Go type behind t is []byte.
+// For an optional field of type *[]byte, t is the pointer node and the tag is on its element.
+func isBinaryType(t *tType) bool {
+	return t.Tag == defs.T_binary || (t.IsPointer && t.V.Tag == defs.T_binary)
+}
+
 func decodeStringNoCopy(t *tType, b []byte, p unsafe.Pointer) (i int, err error) {
 	if len(b) < strHeaderLen {
 		return 0, io.ErrShortBuffer
@@ -211,7 +217,7 @@ func decodeStringNoCopy(t *tType, b []byte, p unsafe.Pointer) (i int, err error)
 	}
 	i += 4
 	if l == 0 {
-		if t.Tag == defs.T_binary {
+		if isBinaryType(t) {
 			*(*[]byte)(p) = []byte{}
 		} else {
 			*(*string)(p) = ""
@@ -223,7 +229,7 @@ func decodeStringNoCopy(t *tType, b []byte, p unsafe.Pointer) (i int, err error)
 		return i, newSizeExceedsBufferException(l, len(b)-i)
 	}
 
-	if t.Tag == defs.T_binary {
+	if isBinaryType(t) {
 		*(*[]byte)(p) = unsafe.Slice(&b[i], l)
 	} else {
 		*(*string)(p) = unsafe.String(&b[i], l)
@@ -253,7 +259,7 @@ func (d *tDecoder) decodeType(t *tType, b []byte, p unsafe.Pointer, maxdepth int
 		}
 		i := 4
 		if l == 0 {
-			if t.Tag == defs.T_binary {
+			if isBinaryType(t) {
 				*(*[]byte)(p) = []byte{}
 			} else {
 				*(*string)(p) = ""
@@ -266,7 +272,7 @@ func (d *tDecoder) decodeType(t *tType, b []byte, p unsafe.Pointer, maxdepth int
 		}
 
 		x := d.Malloc(l, 1, 0)
-		if t.Tag == defs.T_binary {
+		if isBinaryType(t) {
 			*(*[]byte)(p) = unsafe.Slice((*byte)(x), l)
 		} else {
 			*(*string)(p) = unsafe.String((*byte)(x), l)
